@@ -2394,3 +2394,40 @@ def t2_lex(ctx: fw.Ctx, srcs: list[str], typed: bool = False, name: str = "T2:le
             continue
         if ans != mine:
             ctx.tie_broken(name, {"source": src[:500], "model": ans[:600], "tumfl": mine[:600]})
+
+
+# =========================================================================== T2 correspondence: model parser vs tumfl parser
+import modeldump
+
+
+def py_parse_canon(src: str) -> str:
+    from tumfl.parser import Parser
+    with quiet():
+        try:
+            p = Parser(src)
+            ast = p.parse_chunk()
+            p._assert(TokenType.EOF)
+            return "ok " + modeldump.hints(p.context_hints) + " " + modeldump.block(ast)
+        except LexerError as e:
+            return f"err lexer {e.line} {e.column}"
+        except ParserError as e:
+            return f"err parser {e.token.type.name} {e.token.line} {e.token.column} {modeldump.hints(e.hints)}"
+        except RecursionError:
+            return "err py RecursionError"
+        except Exception as e:  # noqa: BLE001
+            return f"err py {type(e).__name__}"
+
+
+def t2_parse(ctx: fw.Ctx, srcs: list[str], name: str = "T2:parse") -> None:
+    """Correspondence: the Lean model of parser.py (with the model lexer underneath) and the real parser: the whole
+    AST with token positions and comments and the final hint stack, or the error with its token and hint chain."""
+    st = next((s for s in ctx.streams if s.name == name + " correspondence"), None) or ctx.stream(name + " correspondence")
+    srcs = [s for s in srcs if not has_surrogate_escape(s)]
+    answers = drive([("mparse", hx(s)) for s in srcs])
+    for src, ans in zip(srcs, answers):
+        mine = py_parse_canon(src)
+        st.record({"kind": "t2-parse", "source": src[:200]}, key=src)
+        if ans.startswith("err py") and mine.startswith("err py"):
+            continue
+        if ans != mine:
+            ctx.tie_broken(name, {"source": src[:500], "model": ans[:800], "tumfl": mine[:800]})
